@@ -133,6 +133,8 @@ class FunctionTranslator:
                 return True
             if self.m.numpy.get(node.func.id) in ("zeros", "array", "ones", "where", "argsort"):
                 return True
+        if isinstance(node, ast.UnaryOp) and isinstance(node.op, ast.USub):
+            return self._fresh_list_expr(node.operand)
         if isinstance(node, ast.Call) and isinstance(node.func, ast.Attribute) and node.func.attr in ("join", "zfill", "index"):
             return True                      # str / int results are immutable
         if isinstance(node, ast.BinOp):
@@ -148,6 +150,9 @@ class FunctionTranslator:
                 for t in targets:
                     if isinstance(t, ast.Subscript) and isinstance(t.value, ast.Name):
                         mutated.add(t.value.id)
+                    elif isinstance(t, ast.Subscript) and isinstance(t.value, ast.Subscript) and isinstance(t.value.value, ast.Name) \
+                            and self.m.numpy:
+                        mutated.add(t.value.value.id)     # a[i][j] = v writes through a row view of the array a
                     elif isinstance(t, ast.Subscript):
                         raise Unsupported("%s: subscript assignment to a non-name" % self.name)
             if isinstance(node, ast.Expr) and isinstance(node.value, ast.Call) and \
@@ -248,7 +253,7 @@ class FunctionTranslator:
         if isinstance(node, ast.UnaryOp) and isinstance(node.op, ast.USub):
             if isinstance(node.operand, ast.Constant) and isinstance(node.operand.value, int):
                 return True, "(.int (-%d))" % node.operand.value
-            return self.apply("pyNeg", [node.operand], scope, assigned)
+            return self.apply("npNeg" if self.m.numpy else "pyNeg", [node.operand], scope, assigned)
         if isinstance(node, ast.UnaryOp) and isinstance(node.op, ast.Not):
             c = self.cond(node.operand, scope, assigned)
             return False, "(bnd %s fun c => .ok (.bool (!c)))" % c
@@ -418,13 +423,13 @@ class FunctionTranslator:
             dtype_int_only()
             if len(a) == 1 and not kws:
                 return self.apply("npArray", a, scope, assigned)
-        elif real == "zeros":
+        elif real in ("zeros", "ones"):
             dtype_int_only()
             shape = kws.pop("shape", None)
             if shape is not None and not a:
                 a = [shape]
             if len(a) == 1 and not kws:
-                return self.apply("npZeros", a, scope, assigned)
+                return self.apply("npZeros" if real == "zeros" else "npOnes", a, scope, assigned)
         raise Unsupported("%s: NumPy call %s" % (self.name, real))
 
     # conditions: term : R Bool
@@ -530,6 +535,20 @@ class FunctionTranslator:
                     return rest_fn(asg)
                 return self.store(target.elts[i], "(%s.getD %d .none)" % (items, i), asg, lambda a2: chain(i + 1, a2))
             return "bnd (pyUnpack %d %s) fun %s =>\n%s" % (n, value_term, items, chain(0, assigned))
+        two = None
+        if isinstance(target, ast.Subscript) and isinstance(target.value, ast.Subscript) and \
+                isinstance(target.value.value, ast.Name) and not isinstance(target.slice, (ast.Slice, ast.Tuple)) and \
+                not isinstance(target.value.slice, (ast.Slice, ast.Tuple)):
+            two = (target.value.value, target.value.slice, target.slice)          # a[i][j] = v  (row view of an array)
+        elif isinstance(target, ast.Subscript) and isinstance(target.value, ast.Name) and isinstance(target.slice, ast.Tuple) \
+                and len(target.slice.elts) == 2 and not any(isinstance(x, ast.Slice) for x in target.slice.elts):
+            two = (target.value, target.slice.elts[0], target.slice.elts[1])         # a[i, j] = v
+        if two is not None:
+            nm = two[0].id
+            _, t = self.apply("npSetItem2", [two[0], two[1], two[2], ast.Name(id="\0val", ctx=ast.Load())],
+                              {"\0val": value_term}, assigned)
+            v = self.tmp()
+            return "bnd %s fun %s =>\nlet e : Env := %s\n%s" % (t, v, self.assign_names([(nm, v)]), rest_fn(assigned))
         if isinstance(target, ast.Subscript) and isinstance(target.value, ast.Name):
             if isinstance(target.slice, ast.Slice):
                 raise Unsupported("%s: slice assignment" % self.name)
